@@ -1,7 +1,7 @@
 (* Persist/PInvSem.v — port of Core/DInvSem.v to the persist-mode model: when may a memo be
    marked verified now (edge walk or durability short-cut), and when is a freshly computed memo
-   ok, including what every observer of the query is owed.  (No stamp-provenance lemma: the
-   backdate-violation panic is an allowed outcome here.) *)
+   ok, including what every observer of the query is owed, and that stamps never decrease
+   ([frame_changed_lb]). *)
 From Salsa Require Import Base.
 From Salsa.Kern Require Import CoreK CoreKFacts.
 From Salsa.Core Require Import Model Spec SpecProofs Inv DurSem.
@@ -14,17 +14,20 @@ Hypothesis Hrank : calls_below prog rank.
 Variable NF : nat.
 Hypothesis Hbound : forall q, (rank q < NF)%nat.
 Variable fm : bool.
+Variable F : ghost.
 Notation E := (E prog NF).
 Notation tr := (tr prog NF).
 Notation envat := (envat prog NF).
 Notation durge := (durge prog NF).
 Notation clos := (clos prog NF).
-Notation dmemo_ok := (dmemo_ok prog NF fm).
-Notation DInv := (DInv prog NF fm).
+Notation dmemo_ok := (fun H D => dmemo_ok prog NF fm H D F).
+Notation DInv := (fun H D => DInv prog NF fm H D F).
 Notation obs_pre := (obs_pre prog NF).
 Notation obs_ok := (obs_ok prog NF).
 Notation good := (good prog NF fm).
-Notation dext := (dext prog NF).
+Notation dext := (fun H D => dext prog NF H D F).
+Notation sle := (fun s => sle s F).
+Notation prov := (fun H s => prov prog NF H s F).
 
 Ltac conj := repeat match goal with |- _ /\ _ => split end.
 
@@ -35,10 +38,10 @@ Lemma obs_of_callee H D s d1 md1 d md :
   E H (cur s) d = E H (m_verified md) d /\ m_dur md1 <= m_dur md.
 Proof.
   intros HI Hm1 Hv1 Hc Hmd.
-  pose proof (inv_memo _ _ _ _ _ _ HI d1 md1 Hm1) as Hok1.
+  pose proof (inv_memo _ _ _ _ _ _ _ HI d1 md1 Hm1) as Hok1.
   rewrite <- Hv1 in Hc. rewrite <- Hv1.
-  apply (mo_obs _ _ _ _ _ _ _ _ Hok1 d md Hc Hmd).
-  left. pose proof (mo_order _ _ _ _ _ _ _ _ (inv_memo _ _ _ _ _ _ HI d md Hmd)) as (_ & A & B).
+  apply (mo_obs _ _ _ _ _ _ _ _ _ Hok1 d md Hc Hmd).
+  left. pose proof (mo_order _ _ _ _ _ _ _ _ _ (inv_memo _ _ _ _ _ _ _ HI d md Hmd)) as (_ & A & B).
   rewrite Hv1. lia.
 Qed.
 
@@ -49,7 +52,7 @@ Lemma never_now H D s a d :
 Proof.
   intros HI Ha Hle Hd.
   apply (durge_stable prog rank Hrank NF Hbound H D 3 a (cur s) d (cur s));
-    [lia | apply (stable_never prog NF fm H D s a HI Ha) | exact Hd | exact Hle | lia].
+    [lia | apply (stable_never prog NF fm H D F s a HI Ha) | exact Hd | exact Hle | lia].
 Qed.
 
 (* two revisions that answer the reads of q at a alike give the same run *)
@@ -111,9 +114,9 @@ Lemma revalidate_ok H D s q m :
   DInv H D (store s q m') /\ dext H D s (store s q m') /\ E H (cur s) q = E H (m_verified m) q.
 Proof.
   intros HI Hm Hag HDin Hdg Hgood Hsync Hclos m'.
-  pose proof (inv_memo _ _ _ _ _ _ HI q m Hm) as Hok.
+  pose proof (inv_memo _ _ _ _ _ _ _ HI q m Hm) as Hok.
   destruct (same_run H _ _ q Hag) as [Htr' HE].
-  pose proof (mo_order _ _ _ _ _ _ _ _ Hok) as (Ho1 & Ho2 & Ho3).
+  pose proof (mo_order _ _ _ _ _ _ _ _ _ Hok) as (Ho1 & Ho2 & Ho3).
   assert (Hobs : forall g w k, obs_ok H D s g w k -> clos H w g q -> obs_pre H D s w q m' ->
              E H w q = E H (cur s) q /\ k <= m_dur m').
   { intros g w k Hog Hcl Hpre.
@@ -122,13 +125,17 @@ Proof.
   assert (Hall : forall g w k, obs_ok H D s g w k -> obs_ok H D (store s q m') g w k).
   { intros g w k Ho. apply obs_store; [reflexivity | exact Ho|]. intros Hcl Hp. apply (Hobs g w k Ho Hcl Hp). }
   assert (Hfin : DInv H D (store s q m') /\ dext H D s (store s q m')).
-  { apply (DInv_store prog NF fm H D s q m' HI); [reflexivity | | exact Hobs |].
-    - destruct Hok as [a b c d e f g h i j k].
+  assert (Hphi : forall c0, PInv.phi s F q = Some c0 -> c0 <= m_changed m').
+  { intros c0 Hc0. unfold PInv.phi in Hc0. rewrite Hm in Hc0. injection Hc0 as <-. cbn. lia. }
+  { apply (DInv_store prog NF fm H D F s q m' HI); [reflexivity | | exact Hobs | | exact Hphi].
+    - destruct Hok as [a b c d e f g h i st j k].
       constructor; cbn [m' reverify m_val m_verified m_changed m_dur m_untracked m_edges];
-        rewrite ?cur_store, ?Htr'; auto.
-      + pose proof (inv_cur _ _ _ _ _ _ HI). lia.
+        rewrite ?cur_store; unfold PInv.prov; rewrite ?Htr'; auto.
+      + pose proof (inv_cur _ _ _ _ _ _ _ HI). lia.
       + intros x Hx. rewrite HE. apply b; exact Hx.
       + intros Hu0 d0 Hd0 Hn. apply (good_mono prog NF fm H D s); [apply N.le_refl | exact Hall | apply Hgood; assumption].
+      + apply (prov_mono prog NF H s (store s q m') F q (m_verified m) (m_changed m)); [reflexivity | | exact st].
+        intros d0 c0. apply phi_store. exact Hphi.
       + intros d0 md Hd0 Hmd _. unfold store in Hmd; cbn in Hmd. unfold upd in Hmd.
         destruct (key_eqb_spec q d0) as [<- | Hne].
         * injection Hmd as <-. split; [reflexivity | cbn; lia].
@@ -150,24 +157,24 @@ Lemma shortcut_ok H D s q m :
   DInv H D (store s q m') /\ dext H D s (store s q m') /\ E H (cur s) q = E H (m_verified m) q.
 Proof.
   intros HI Hm Hlc.
-  pose proof (inv_memo _ _ _ _ _ _ HI q m Hm) as Hok.
-  pose proof (mo_order _ _ _ _ _ _ _ _ Hok) as (Ho1 & Ho2 & Ho3).
+  pose proof (inv_memo _ _ _ _ _ _ _ HI q m Hm) as Hok.
+  pose proof (mo_order _ _ _ _ _ _ _ _ _ Hok) as (Ho1 & Ho2 & Ho3).
   destruct (N.eq_dec (m_verified m) (cur s)) as [Heq | Hne].
   - (* already verified now: nothing moves *)
     apply (revalidate_ok H D s q m HI Hm); rewrite <- ?Heq.
     + intros x _. reflexivity.
     + intros i _. reflexivity.
-    + apply (mo_durge _ _ _ _ _ _ _ _ Hok).
-    + apply (mo_q _ _ _ _ _ _ _ _ Hok).
-    + apply (mo_sync _ _ _ _ _ _ _ _ Hok).
+    + apply (mo_durge _ _ _ _ _ _ _ _ _ Hok).
+    + apply (mo_q _ _ _ _ _ _ _ _ _ Hok).
+    + apply (mo_sync _ _ _ _ _ _ _ _ _ Hok).
     + intros d md Hd Hdq Hmd.
-      apply (mo_obs _ _ _ _ _ _ _ _ Hok d md Hd Hmd). left.
-      pose proof (mo_order _ _ _ _ _ _ _ _ (inv_memo _ _ _ _ _ _ HI d md Hmd)) as (_ & A & B). lia.
+      apply (mo_obs _ _ _ _ _ _ _ _ _ Hok d md Hd Hmd). left.
+      pose proof (mo_order _ _ _ _ _ _ _ _ _ (inv_memo _ _ _ _ _ _ _ HI d md Hmd)) as (_ & A & B). lia.
   - assert (Hk : 1 <= m_dur m).
     { destruct (N.eq_dec (m_dur m) 0) as [H0 | H0]; [|lia].
       rewrite H0 in Hlc. unfold lcs in Hlc. rewrite lc_zero in Hlc. unfold cur in *. lia. }
-    pose proof (stable_now prog NF fm H D s (m_dur m) (m_verified m) HI Hlc) as Hw.
-    pose proof (mo_durge _ _ _ _ _ _ _ _ Hok) as Hdg.
+    pose proof (stable_now prog NF fm H D F s (m_dur m) (m_verified m) HI Hlc) as Hw.
+    pose proof (mo_durge _ _ _ _ _ _ _ _ _ Hok) as Hdg.
     assert (Hst : forall d, durge H D (m_verified m) (m_dur m) d ->
               tr H (cur s) d = tr H (m_verified m) d /\ E H (cur s) d = E H (m_verified m) d /\
               durge H D (cur s) (m_dur m) d).
@@ -183,7 +190,7 @@ Proof.
       * reflexivity.
     + intros i Hi. apply (Hw i); [apply (durge_in _ _ _ _ _ _ _ _ Hdg Hi) | lia | lia].
     + apply (Hst q Hdg).
-    + intros _ d Hd Hn. destruct (mo_flat _ _ _ _ _ _ _ _ Hok) as [Hf | Hdir].
+    + intros _ d Hd Hn. destruct (mo_flat _ _ _ _ _ _ _ _ _ Hok) as [Hf | Hdir].
       * apply (good_never prog NF fm H D s _ _ d (m_verified m) (m_dur m) Hf Hk Ho3).
         apply (durge_q _ _ _ _ _ _ _ _ Hdg Hd).
       * exfalso. apply Hn. apply Hdir. exact Hd.
@@ -191,7 +198,7 @@ Proof.
     + intros d md Hd Hdq Hmd.
       apply (clos_stable prog rank Hrank NF Hbound H D (m_dur m) (m_verified m) (cur s) q (cur s) Hk Hw Hdg Ho3 (N.le_refl _)) in Hd.
       pose proof (durge_clos _ _ _ _ _ _ _ _ Hdg Hd) as Hdd.
-      destruct (mo_obs _ _ _ _ _ _ _ _ Hok d md Hd Hmd) as [A B];
+      destruct (mo_obs _ _ _ _ _ _ _ _ _ Hok d md Hd Hmd) as [A B];
         [right; exists (m_dur m); split; assumption|].
       split; [|exact B]. rewrite <- A. apply (Hst d Hdd).
 Qed.
@@ -209,6 +216,9 @@ Record covers (s : db) (pre : list rd) (fr : frame) : Prop := {
             fr_untracked fr = true /\ fr_changed fr = cur s /\ fr_dur fr = 0;
   cv_edges_q : forall d, In (EQ d) (fr_edges fr) -> In (RQ d) pre;
   cv_le : fr_changed fr <= cur s;
+  cv_ge1 : 1 <= fr_changed fr;
+  (* the frame's stamp is the stamp of something that was read *)
+  cv_stamp : fr_changed fr <= 1 \/ exists x, In x pre /\ sle s (fr_changed fr) x;
   cv_dur3 : fr_dur fr <= 3;
   cv_untr : fr_untracked fr = true -> fr_dur fr = 0;
   (* the frame's durability is exactly the minimum over what was read *)
@@ -227,6 +237,8 @@ Proof.
   - intros x [].
   - intros d [].
   - cbn. unfold REV_START. exact Hc.
+  - cbn. unfold REV_START. lia.
+  - left. cbn. unfold REV_START. lia.
   - cbn. unfold D_NEVER. lia.
   - discriminate.
   - intros k Hk _ _ _. exact Hk.
@@ -248,12 +260,71 @@ Proof.
   apply (cv_lb _ _ _ Hcv).
   - apply (ob_dur3 _ _ _ _ _ _ _ _ Hog).
   - intros i Hi.
-    rewrite <- (inv_dur _ _ _ _ _ _ HI i (cur s)); [|apply (inv_in_le _ _ _ _ _ _ HI) | lia].
+    rewrite <- (inv_dur _ _ _ _ _ _ _ HI i (cur s)); [|apply (inv_in_le _ _ _ _ _ _ _ HI) | lia].
     rewrite (HDi i Hi). rewrite Htr in Hi. apply (durge_in _ _ _ _ _ _ _ _ Hdq Hi).
   - intros d Hd md Hmd. pose proof Hd as Hd'. rewrite Htr in Hd'.
     pose proof (clos_right _ _ _ _ _ _ _ Hcl Hd') as Hcd.
     apply (ob_obs _ _ _ _ _ _ _ _ Hog d md Hcd Hmd). apply Hpre; assumption.
   - intros x Hx Hu. rewrite Htr in Hx. apply (durge_untr _ _ _ _ _ _ _ _ Hdq Hx Hu).
+Qed.
+
+(* Stamps never decrease: the stamp of a completed frame is at least the stamp c that q had as
+   observer at rho (its old memo, or the memo a restore dropped). *)
+Lemma frame_changed_lb H D s q fr rho c k :
+  DInv H D s -> covers s (tr H (cur s) q) fr ->
+  obs_ok H D s q rho k -> c <= rho -> prov H s q rho c ->
+  c <= fr_changed fr.
+Proof.
+  intros HI Hcv Hog Hcr Hpv.
+  pose proof (ob_order _ _ _ _ _ _ _ _ Hog) as (Ho1 & Ho3).
+  assert (Hsle : forall x, In x (tr H (cur s) q) -> sle s c x -> c <= fr_changed fr).
+  { intros x Hx Hs. destruct x as [i | d | cc |]; cbn in Hs.
+    - destruct (cv_in _ _ _ Hcv i Hx) as (_ & A & _). lia.
+    - destruct Hs as (c' & Hc' & Hle).
+      destruct (cv_q _ _ _ Hcv d Hx) as (md0 & Hmd0 & _ & _ & A & _).
+      unfold PInv.phi in Hc'. rewrite Hmd0 in Hc'. injection Hc' as <-. lia.
+    - destruct (cv_cell _ _ _ Hcv (RCell cc) Hx) as (_ & A & _); [right; eauto | lia].
+    - destruct (cv_cell _ _ _ Hcv RTouch Hx) as (_ & A & _); [left; reflexivity | lia]. }
+  destruct (first_changed_is_read_again (prog q) (envat H rho) (envat H (cur s)))
+    as [Hag | (pre & x & post & Ht & _ & Hnea & post' & Ht')].
+  - destruct (trace_determined _ _ _ Hag) as [Htr _].
+    assert (Htr' : tr H (cur s) q = tr H rho q) by exact Htr.
+    destruct Hpv as [A | (x & Hx & Hs)].
+    + pose proof (cv_ge1 _ _ _ Hcv). lia.
+    + apply (Hsle x); [rewrite Htr'; exact Hx | exact Hs].
+  - assert (Hx : In x (tr H rho q)).
+    { unfold tr, Inv.tr. rewrite Ht. apply in_or_app; right; left; reflexivity. }
+    assert (Hx' : In x (tr H (cur s) q)).
+    { unfold tr, Inv.tr. rewrite Ht'. apply in_or_app; right; left; reflexivity. }
+    destruct x as [i | d | cc |]; cbn in Hnea.
+    + destruct (cv_in _ _ _ Hcv i Hx') as (_ & A & _).
+      destruct (N.le_gt_cases (f_changed (d_in s i)) rho) as [Hle | Hgt]; [|lia].
+      exfalso. apply Hnea.
+      rewrite (inv_in _ _ _ _ _ _ _ HI i rho Hle Ho3).
+      symmetry. apply (inv_in _ _ _ _ _ _ _ HI i (cur s)); [apply (inv_in_le _ _ _ _ _ _ _ HI) | lia].
+    + destruct (cv_q _ _ _ Hcv d Hx') as (md & Hmd & Hvd & _ & A & _).
+      destruct (N.le_gt_cases (m_changed md) rho) as [Hle | Hgt]; [|lia].
+      exfalso. apply Hnea.
+      destruct (ob_obs _ _ _ _ _ _ _ _ Hog d md (clos_one _ _ _ _ _ _ Hx) Hmd) as [B _]; [left; exact Hle|].
+      rewrite B, Hvd. reflexivity.
+    + destruct (cv_cell _ _ _ Hcv (RCell cc) Hx') as (_ & A & _); [right; eauto | lia].
+    + exfalso. apply Hnea. reflexivity.
+Qed.
+
+(* the stamp that q has now is at most the stamp of a completed frame *)
+Lemma phi_frame_lb H D s q fr c0 :
+  DInv H D s -> covers s (tr H (cur s) q) fr -> PInv.phi s F q = Some c0 -> c0 <= fr_changed fr.
+Proof.
+  intros HI Hcv Hc0. unfold PInv.phi in Hc0.
+  destruct (d_memo s q) as [o|] eqn:Ho.
+  - injection Hc0 as <-. pose proof (inv_memo _ _ _ _ _ _ _ HI q o Ho) as Hok.
+    apply (frame_changed_lb H D s q fr (m_verified o) (m_changed o) (m_dur o) HI Hcv).
+    + apply (obs_of_memo prog NF fm H D F s q o Hok).
+    + pose proof (mo_order _ _ _ _ _ _ _ _ _ Hok). lia.
+    + apply (mo_stamp _ _ _ _ _ _ _ _ _ Hok).
+  - destruct (F q) as [[rho c]|] eqn:HF; [|discriminate]. cbn in Hc0. injection Hc0 as <-.
+    destruct (inv_ghost _ _ _ _ _ _ _ HI q rho c Ho HF) as (A & B & C0).
+    apply (frame_changed_lb H D s q fr rho c 0 HI Hcv B A C0).
 Qed.
 
 (* A freshly computed memo may be stored: it is ok, and every observer is served. *)
@@ -275,10 +346,10 @@ Proof.
   assert (Hch_le : ch <= cur s).
   { destruct Hch as [-> | (o & ov & Ho & _ & _ & -> & _)].
     - apply (cv_le _ _ _ Hcv).
-    - subst old. pose proof (mo_order _ _ _ _ _ _ _ _ (inv_memo _ _ _ _ _ _ HI q o Ho)). lia. }
-  assert (Hcur1 : 1 <= cur s) by apply (inv_cur _ _ _ _ _ _ HI).
+    - subst old. pose proof (mo_order _ _ _ _ _ _ _ _ _ (inv_memo _ _ _ _ _ _ _ HI q o Ho)). lia. }
+  assert (Hcur1 : 1 <= cur s) by apply (inv_cur _ _ _ _ _ _ _ HI).
   assert (HDcur : forall i, D (cur s) i = f_dur (d_in s i)).
-  { intros i. apply (inv_dur _ _ _ _ _ _ HI); [apply (inv_in_le _ _ _ _ _ _ HI) | lia]. }
+  { intros i. apply (inv_dur _ _ _ _ _ _ _ HI); [apply (inv_in_le _ _ _ _ _ _ _ HI) | lia]. }
   (* callees of the new run: verified now *)
   assert (Hcallee : forall d, In (RQ d) (tr H (cur s) q) ->
             exists md, d_memo s d = Some md /\ m_verified md = cur s /\
@@ -286,14 +357,22 @@ Proof.
                        durge H D (cur s) (m_dur md) d).
   { intros d Hd. destruct (cv_q _ _ _ Hcv d Hd) as (md & Hmd & Hvd & _ & Hcd & Hdd & _).
     exists md. conj; auto. rewrite <- Hvd.
-    apply (mo_durge _ _ _ _ _ _ _ _ (inv_memo _ _ _ _ _ _ HI d md Hmd)). }
+    apply (mo_durge _ _ _ _ _ _ _ _ _ (inv_memo _ _ _ _ _ _ _ HI d md Hmd)). }
   assert (Hdg : durge H D (cur s) (fr_dur fr) q).
   { constructor.
     - intros i Hi. rewrite HDcur. apply (cv_in _ _ _ Hcv i Hi).
     - intros d Hd. destruct (Hcallee d Hd) as (md & _ & _ & _ & Hle & Hdd).
       eapply durge_mono; [exact Hle | exact Hdd].
     - intros x Hx Hu. apply (cv_cell _ _ _ Hcv x Hx Hu). }
-  apply (DInv_store prog NF fm H D s q m' HI); [reflexivity | | |].
+  assert (Hmono : forall c0, PInv.phi s F q = Some c0 -> c0 <= m_changed m').
+  { intros c0 Hc0. cbn [m' fresh_memo m_changed].
+    destruct Hch as [-> | (o & ov & Ho & _ & _ & -> & _)].
+    - apply (phi_frame_lb H D s q fr c0 HI Hcv Hc0).
+    - subst old. unfold PInv.phi in Hc0. rewrite Ho in Hc0. injection Hc0 as <-. lia. }
+  assert (Hch_fr : ch <= fr_changed fr).
+  { destruct Hch as [-> | (o & ov & Ho & _ & _ & -> & _)]; [lia|].
+    subst old. apply (phi_frame_lb H D s q fr (m_changed o) HI Hcv). unfold PInv.phi. rewrite Ho. reflexivity. }
+  apply (DInv_store prog NF fm H D F s q m' HI); [reflexivity | | | | exact Hmono].
   - (* the new memo is ok *)
     constructor; cbn [m' fresh_memo m_val m_verified m_changed m_dur m_untracked m_edges]; rewrite ?cur_store.
     + lia.
@@ -306,6 +385,13 @@ Proof.
     + right. intros d Hd. destruct (cv_q _ _ _ Hcv d Hd) as (md & _ & _ & _ & _ & _ & Hin). exact Hin.
     + exact Hdg.
     + apply (cv_dur3 _ _ _ Hcv).
+    + (* the stamp has a provenance in the new run *)
+      destruct (cv_stamp _ _ _ Hcv) as [A | (x & Hx & Hs)]; [left; lia | right].
+      exists x. split; [exact Hx|].
+      apply (sle_mono s (store s q m') F ch x); [reflexivity | intros d0 c0; apply phi_store; exact Hmono|].
+      destruct x as [i | d | cc |]; cbn in Hs |- *; auto.
+      * lia.
+      * destruct Hs as (c' & Hc' & Hle). exists c'. split; [exact Hc' | lia].
     + intros d md Hd Hmd _. unfold store in Hmd; cbn in Hmd. unfold upd in Hmd.
       destruct (key_eqb_spec q d) as [<- | Hne].
       * injection Hmd as <-. split; [reflexivity | cbn; lia].
@@ -326,7 +412,7 @@ Proof.
     pose proof (ob_order _ _ _ _ _ _ _ _ Hog) as (Hg1 & Hg3).
     pose proof (durge_clos _ _ _ _ _ _ _ _ (ob_durge _ _ _ _ _ _ _ _ Hog) Hcl) as Hdgq.
     assert (Hmdle : forall d md, d_memo s d = Some md -> m_changed md <= cur s).
-    { intros d md Hmd. pose proof (mo_order _ _ _ _ _ _ _ _ (inv_memo _ _ _ _ _ _ HI d md Hmd)). lia. }
+    { intros d md Hmd. pose proof (mo_order _ _ _ _ _ _ _ _ _ (inv_memo _ _ _ _ _ _ _ HI d md Hmd)). lia. }
     destruct (N.eq_dec (w) (cur s)) as [Heq | Hnow].
     { (* g is verified now *)
       split; [rewrite Heq; reflexivity|].
@@ -340,7 +426,7 @@ Proof.
       assert (Hk : 1 <= k0).
       { destruct (N.eq_dec k0 0) as [-> | H0]; [|lia].
         unfold lcs in Hlck. rewrite lc_zero in Hlck. unfold cur in *. lia. }
-      pose proof (stable_now prog NF fm H D s k0 w HI Hlck) as Hw.
+      pose proof (stable_now prog NF fm H D F s k0 w HI Hlck) as Hw.
       destruct (durge_stable prog rank Hrank NF Hbound H D k0 w (cur s) q (cur s) Hk Hw Hdk Hg3 (N.le_refl _))
         as (Htr & HE & _).
       split; [symmetry; exact HE|].
@@ -357,8 +443,8 @@ Proof.
                 answer (envat H (cur s)) x = answer (envat H (w)) x).
       { intros x Hx Hx'. destruct x as [i | d | c |]; cbn.
         - destruct (cv_in _ _ _ Hcv i Hx) as (_ & Hst & _).
-          rewrite (inv_in _ _ _ _ _ _ HI i (cur s)); [|apply (inv_in_le _ _ _ _ _ _ HI) | lia].
-          rewrite (inv_in _ _ _ _ _ _ HI i (w)); [reflexivity | lia | lia].
+          rewrite (inv_in _ _ _ _ _ _ _ HI i (cur s)); [|apply (inv_in_le _ _ _ _ _ _ _ HI) | lia].
+          rewrite (inv_in _ _ _ _ _ _ _ HI i (w)); [reflexivity | lia | lia].
         - destruct (cv_q _ _ _ Hcv d Hx) as (md & Hmd & Hvd & _ & Hcd & _).
           pose proof (clos_right _ _ _ _ _ _ _ Hcl Hx') as Hcd'.
           destruct (ob_obs _ _ _ _ _ _ _ _ Hog d md Hcd' Hmd) as [A _]; [left; lia|].
@@ -376,24 +462,24 @@ Proof.
       split; [rewrite !(E_unfold prog rank Hrank NF Hbound); exact Hrun|].
       apply (frame_dur_lb H D s q fr g w k HI Hcv Hog Hcl Htr').
       * intros i Hi. destruct (cv_in _ _ _ Hcv i Hi) as (_ & Hst & _).
-        rewrite HDcur. symmetry. apply (inv_dur _ _ _ _ _ _ HI); lia.
+        rewrite HDcur. symmetry. apply (inv_dur _ _ _ _ _ _ _ HI); lia.
       * intros d md Hd Hmd. destruct (cv_q _ _ _ Hcv d Hd) as (md0 & Hmd0 & _ & _ & Hcd & _).
         rewrite Hmd in Hmd0. injection Hmd0 as <-. left. lia.
     + (* backdated: the value equals the old one, the durability did not decrease *)
       subst old.
       destruct (ob_obs _ _ _ _ _ _ _ _ Hog q o Hcl Ho) as [A B]; [left; exact Hle|].
       split; [|cbn; lia].
-      rewrite A. rewrite <- (mo_val _ _ _ _ _ _ _ _ (inv_memo _ _ _ _ _ _ HI q o Ho) ov Hov).
+      rewrite A. rewrite <- (mo_val _ _ _ _ _ _ _ _ _ (inv_memo _ _ _ _ _ _ _ HI q o Ho) ov Hov).
       rewrite Heq. exact Hv.
   - (* the query's own memo, if it was verified now (and evicted) *)
     intros m0 Hm0 Hv0.
     split; [intros Hx; exfalso; apply Hx; apply Hnv; [congruence | exact Hv0]|].
     cbn [m' fresh_memo m_dur].
     apply (frame_dur_lb H D s q fr q (m_verified m0) (m_dur m0) HI Hcv
-             (obs_of_memo prog NF fm H D s q m0 (inv_memo _ _ _ _ _ _ HI q m0 Hm0))); rewrite ?Hv0; auto.
+             (obs_of_memo prog NF fm H D F s q m0 (inv_memo _ _ _ _ _ _ _ HI q m0 Hm0))); rewrite ?Hv0; auto.
     + apply clos_refl.
     + intros d md _ Hmd. left.
-      pose proof (mo_order _ _ _ _ _ _ _ _ (inv_memo _ _ _ _ _ _ HI d md Hmd)). lia.
+      pose proof (mo_order _ _ _ _ _ _ _ _ _ (inv_memo _ _ _ _ _ _ _ HI d md Hmd)). lia.
 Qed.
 
 (* ---------------------------------------------------------------- the edge walk succeeded *)
@@ -430,18 +516,18 @@ Let L := m_edges m.
 Let c := cur s.
 
 Let Hcur : cur s0 = c.
-Proof. symmetry. apply (dext_cur _ _ _ _ _ _ Hext). Qed.
+Proof. symmetry. apply (dext_cur _ _ _ _ _ _ _ Hext). Qed.
 
 Let in_same i w : In (EIn i) L -> v <= w -> w <= c ->
   sn_in (H w) i = sn_in (H c) i /\ D w i = D c i.
 Proof.
   intros Hi Hv Hw. pose proof (Hleaf _ Hi) as Hle. cbn in Hle. fold v in Hle.
-  pose proof (inv_in_le _ _ _ _ _ _ HI i) as Hic. fold c in Hic.
+  pose proof (inv_in_le _ _ _ _ _ _ _ HI i) as Hic. fold c in Hic.
   split.
-  - rewrite (inv_in _ _ _ _ _ _ HI i w); [|lia | exact Hw].
-    symmetry. apply (inv_in _ _ _ _ _ _ HI i c); [exact Hic | apply N.le_refl].
-  - rewrite (inv_dur _ _ _ _ _ _ HI i w); [|lia | exact Hw].
-    symmetry. apply (inv_dur _ _ _ _ _ _ HI i c); [exact Hic | apply N.le_refl].
+  - rewrite (inv_in _ _ _ _ _ _ _ HI i w); [|lia | exact Hw].
+    symmetry. apply (inv_in _ _ _ _ _ _ _ HI i c); [exact Hic | apply N.le_refl].
+  - rewrite (inv_dur _ _ _ _ _ _ _ HI i w); [|lia | exact Hw].
+    symmetry. apply (inv_dur _ _ _ _ _ _ _ HI i c); [exact Hic | apply N.le_refl].
 Qed.
 
 (* a dependency that was flattened away looks now as it looked to every observer *)
@@ -454,7 +540,7 @@ Proof.
   induction n as [|n IH]; intros d Hn Hg; [inversion Hn|].
   inversion Hg as [d0 a k Hf Hk Ha Hd | d0 rho k Ho Hv Hun Hi Hq]; subst d0.
   - intros g w k' _ _ _.
-    pose proof (inv_lowD _ _ _ _ _ _ HI Hf) as HD0.
+    pose proof (inv_lowD _ _ _ _ _ _ _ HI Hf) as HD0.
     destruct (low_never H D a k HD0 Hk (S (rank d)) d (le_n _) Hd w) as (A1 & A2 & _).
     destruct (low_never H D a k HD0 Hk (S (rank d)) d (le_n _) Hd c) as (B1 & B2 & _).
     split; congruence.
@@ -484,26 +570,26 @@ Proof.
     + reflexivity.
 Qed.
 
-Let Hok0 : dmemo_ok H D s0 q m := inv_memo _ _ _ _ _ _ HI0 q m Hm0.
-Let Hobq : obs_ok H D s0 q v (m_dur m) := obs_of_memo prog NF fm H D s0 q m Hok0.
+Let Hok0 : dmemo_ok H D s0 q m := inv_memo _ _ _ _ _ _ _ HI0 q m Hm0.
+Let Hobq : obs_ok H D s0 q v (m_dur m) := obs_of_memo prog NF fm H D F s0 q m Hok0.
 
 Lemma walked_read d : In (RQ d) (tr H v q) -> E H v d = E H c d.
 Proof.
   intros Hd. destruct (edge_in_dec (EQ d) L) as [HinL | HnL].
   - destruct (Hleaf _ HinL) as (_ & A & _). apply (A q v (m_dur m) Hobq (N.le_refl _)).
     apply clos_one. exact Hd.
-  - apply (good_seen (S (rank d)) d (le_n _) (mo_q _ _ _ _ _ _ _ _ Hok0 Hu d Hd HnL)
+  - apply (good_seen (S (rank d)) d (le_n _) (mo_q _ _ _ _ _ _ _ _ _ Hok0 Hu d Hd HnL)
              q v (m_dur m) Hobq (N.le_refl _)).
     apply clos_one. exact Hd.
 Qed.
 
 Lemma walked_agree : agree_on (envat H v) (envat H c) (tr H v q).
 Proof.
-  pose proof (mo_order _ _ _ _ _ _ _ _ Hok0) as (Ho1 & Ho2 & Ho3). fold v in Ho1, Ho3. rewrite Hcur in Ho3.
+  pose proof (mo_order _ _ _ _ _ _ _ _ _ Hok0) as (Ho1 & Ho2 & Ho3). fold v in Ho1, Ho3. rewrite Hcur in Ho3.
   intros x Hx. destruct x as [i | d | cc |]; cbn.
-  - apply (in_same i v (mo_in _ _ _ _ _ _ _ _ Hok0 i Hx) (N.le_refl _) Ho3).
+  - apply (in_same i v (mo_in _ _ _ _ _ _ _ _ _ Hok0 i Hx) (N.le_refl _) Ho3).
   - apply walked_read. exact Hx.
-  - rewrite (mo_reads_cell _ _ _ _ _ _ _ _ Hok0 (RCell cc) Hx) in Hu; [discriminate | right; eauto].
+  - rewrite (mo_reads_cell _ _ _ _ _ _ _ _ _ Hok0 (RCell cc) Hx) in Hu; [discriminate | right; eauto].
   - reflexivity.
 Qed.
 
@@ -515,11 +601,11 @@ Lemma below_good : forall n x, (rank x < n)%nat -> good H D s0 L v x -> clos H v
   forall d md, clos H c x d -> d_memo s d = Some md -> E H c d = E H (m_verified md) d.
 Proof.
   induction n as [|n IH]; intros x Hn Hg Hqx d md Hcl Hmd; [inversion Hn|].
-  pose proof (mo_order _ _ _ _ _ _ _ _ (inv_memo _ _ _ _ _ _ HI d md Hmd)) as (Hmo1 & Hmo2 & Hmo3).
+  pose proof (mo_order _ _ _ _ _ _ _ _ _ (inv_memo _ _ _ _ _ _ _ HI d md Hmd)) as (Hmo1 & Hmo2 & Hmo3).
   fold c in Hmo3.
   inversion Hg as [d0 a k Hf Hk Ha Hd | d0 rho k Ho Hv Hun Hi Hq]; subst d0.
   - (* no input below x *)
-    pose proof (inv_lowD _ _ _ _ _ _ HI Hf) as HD0.
+    pose proof (inv_lowD _ _ _ _ _ _ _ HI Hf) as HD0.
     destruct (low_never H D a k HD0 Hk (S (rank x)) x (le_n _) Hd c) as (_ & _ & H3).
     pose proof (durge_clos _ _ _ _ _ _ _ _ H3 Hcl) as H3d.
     assert (H13 : 1 <= 3) by lia.
@@ -532,12 +618,12 @@ Proof.
     + (* the dependency's own memo *)
       destruct (N.eq_dec (m_verified md) c) as [-> | Hnc]; [reflexivity|].
       assert (Hmd0 : d_memo s0 d = Some md).
-      { apply (ext_old _ _ _ _ _ _ Hext d md Hmd). rewrite Hcur. lia. }
-      pose proof (inv_memo _ _ _ _ _ _ HI0 d md Hmd0) as Hokd.
+      { apply (ext_old _ _ _ _ _ _ _ Hext d md Hmd). rewrite Hcur. lia. }
+      pose proof (inv_memo _ _ _ _ _ _ _ HI0 d md Hmd0) as Hokd.
       destruct (N.le_gt_cases (m_verified md) v) as [Hle | Hgt].
-      * destruct (mo_obs _ _ _ _ _ _ _ _ Hok0 d md Hqx Hmd0) as [A _]; [left; fold v; lia|].
+      * destruct (mo_obs _ _ _ _ _ _ _ _ _ Hok0 d md Hqx Hmd0) as [A _]; [left; fold v; lia|].
         fold v in A. rewrite <- A. symmetry. exact HEv.
-      * destruct (Hseen d (m_verified md) (m_dur md) (obs_of_memo prog NF fm H D s0 d md Hokd))
+      * destruct (Hseen d (m_verified md) (m_dur md) (obs_of_memo prog NF fm H D F s0 d md Hokd))
           as [_ A]; [lia | apply clos_refl|]. symmetry. exact A.
     + rewrite <- Htrr in Hin.
       destruct (edge_in_dec (EQ d1) L) as [HinL | HnL].
@@ -560,7 +646,7 @@ Proof.
     destruct (Hseen x rho k Ho Hv (clos_refl _ _ _ _ _)) as [Htrr HEr].
     apply (good_exp prog NF fm H D s L c x c 0).
     + constructor.
-      * split; [apply (inv_cur _ _ _ _ _ _ HI) | apply N.le_refl].
+      * split; [apply (inv_cur _ _ _ _ _ _ _ HI) | apply N.le_refl].
       * apply (durge_zero prog rank Hrank NF H D).
       * lia.
       * intros d md Hcl Hmd _. split; [|lia].
@@ -587,17 +673,17 @@ Lemma deep_ok H D s0 s q m :
   DInv H D (store s q m') /\ dext H D s (store s q m') /\ E H (cur s) q = E H (m_verified m) q.
 Proof.
   intros HI0 HI Hext Hm0 Hm Hu Hflat Hleaf.
-  pose proof (inv_memo _ _ _ _ _ _ HI0 q m Hm0) as Hok0.
-  pose proof (mo_order _ _ _ _ _ _ _ _ Hok0) as (Ho1 & Ho2 & Ho3).
-  pose proof (mo_durge _ _ _ _ _ _ _ _ Hok0) as Hdg.
-  assert (Hcur : cur s0 = cur s) by (symmetry; apply (dext_cur _ _ _ _ _ _ Hext)).
+  pose proof (inv_memo _ _ _ _ _ _ _ HI0 q m Hm0) as Hok0.
+  pose proof (mo_order _ _ _ _ _ _ _ _ _ Hok0) as (Ho1 & Ho2 & Ho3).
+  pose proof (mo_durge _ _ _ _ _ _ _ _ _ Hok0) as Hdg.
+  assert (Hcur : cur s0 = cur s) by (symmetry; apply (dext_cur _ _ _ _ _ _ _ Hext)).
   rewrite Hcur in Ho3.
   pose proof (walked_agree H D s0 s q m HI0 HI Hext Hm0 Hu Hleaf) as Hag.
   destruct (walked_tr H D s0 s q m HI0 HI Hext Hm0 Hu Hleaf) as [Htr HE].
   assert (Hinc : forall i, In (RIn i) (tr H (m_verified m) q) -> D (cur s) i = D (m_verified m) i).
-  { intros i Hi. pose proof (Hleaf _ (mo_in _ _ _ _ _ _ _ _ Hok0 i Hi)) as Hle. cbn in Hle.
-    rewrite (inv_dur _ _ _ _ _ _ HI i (m_verified m) Hle Ho3).
-    apply (inv_dur _ _ _ _ _ _ HI i (cur s)); [apply (inv_in_le _ _ _ _ _ _ HI) | lia]. }
+  { intros i Hi. pose proof (Hleaf _ (mo_in _ _ _ _ _ _ _ _ _ Hok0 i Hi)) as Hle. cbn in Hle.
+    rewrite (inv_dur _ _ _ _ _ _ _ HI i (m_verified m) Hle Ho3).
+    apply (inv_dur _ _ _ _ _ _ _ HI i (cur s)); [apply (inv_in_le _ _ _ _ _ _ _ HI) | lia]. }
   apply (revalidate_ok H D s q m HI Hm Hag Hinc).
   - (* the level now *)
     constructor; rewrite Htr.
@@ -609,7 +695,7 @@ Proof.
   - (* the cover from now on *)
     intros _ d Hd HnL. destruct Hflat as [Hz | Hdir]; [|exfalso; apply HnL; apply Hdir; exact Hd].
     apply (reroot H D s0 s q m HI0 HI Hext Hm0 Hleaf (S (rank d)) d (le_n _)
-             (mo_q _ _ _ _ _ _ _ _ Hok0 Hu d Hd HnL)).
+             (mo_q _ _ _ _ _ _ _ _ _ Hok0 Hu d Hd HnL)).
     apply clos_one. exact Hd.
   - intros _ d md Hd Hmd. destruct (Hleaf _ Hd) as ((md' & Hmd' & Hv') & _).
     rewrite Hmd in Hmd'. injection Hmd' as <-. lia.
@@ -627,7 +713,7 @@ Proof.
     + destruct Hflat as [Hz | Hdir]; [|exfalso; apply HnL; apply Hdir; exact Hin].
       split; [|lia].
       apply (below_good H D s0 s q m HI0 HI Hext Hm0 Hleaf (S (rank d1)) d1 (le_n _)
-               (mo_q _ _ _ _ _ _ _ _ Hok0 Hu d1 Hin HnL) (clos_one _ _ _ _ _ _ Hin) d md Hd1 Hmd).
+               (mo_q _ _ _ _ _ _ _ _ _ Hok0 Hu d1 Hin HnL) (clos_one _ _ _ _ _ _ Hin) d md Hd1 Hmd).
 Qed.
 
 End Sem.
